@@ -1,7 +1,8 @@
 import os
 from checks.generic import standard
 
-THEOREMS = ["c06_gate_sound", "c06_identity_real", "c06_never_denied", "c06_deny_no_position", "c06_never_outside",
+THEOREMS = ["c06_gate_sound", "c06_identity_real", "c06_never_denied", "c06_deny_no_position", "c06_never_outside", "c06_never_outside_blocks", "c06_never_outside_numeric",
+            "c06_cookie_window", "c06_cookie_outside_window_refused", "c06_grace_refuted",
             "c06_basic_only_without_cookie", "c06_webui_without_password", "c06_csrf",
             "c06_routes", "c06_public_no_effect", "c06_csrf_partial", "c06_csrf_nonget",
             "c06_get_state_changers", "c06_get_effects_refuted", "c06_old_manage_refuted", "c06_old_register_finish_refuted", "c06_old_tls_refuted"]
